@@ -60,6 +60,14 @@ impl State {
 }
 
 static STATE: Mutex<Option<State>> = Mutex::new(None);
+/// The step budget ran out: threads run free from here on; simulated system
+/// calls fail so that a thread looping around one (in the code under test)
+/// gets out and can be joined.
+static POISON: std::sync::atomic::AtomicBool = std::sync::atomic::AtomicBool::new(false);
+
+pub fn syscalls_poisoned() -> bool {
+    POISON.load(Ordering::SeqCst)
+}
 static CV: Condvar = Condvar::new();
 
 thread_local! {
@@ -135,6 +143,7 @@ pub fn yield_point(kind: Kind, addr: usize) {
     if st.steps > st.budget {
         st.over_budget = true;
         st.aborted = true;
+        POISON.store(true, Ordering::SeqCst);
         ACTIVE.store(false, Ordering::SeqCst);
         CV.notify_all();
         return;
@@ -319,6 +328,7 @@ pub fn run(tape: Vec<u16>, budget: usize, record: bool, threads: Vec<Box<dyn FnO
         }
     }
     ACTIVE.store(false, Ordering::SeqCst);
+    POISON.store(false, Ordering::SeqCst);
     a10::verif::install_point(None);
     crate::sim::set_block_fn(None);
     let st = lock().take().unwrap();
